@@ -462,6 +462,31 @@ Section Proofs.
     destruct W as (W1 & W2). destruct (step_inv s o I W1) as (I' & A). split; [exact A|]. apply IH; assumption.
   Qed.
 
+  (* every reachable state keeps the invariant *)
+  Lemma run_inv ops : forall s, inv s -> wf_ops s ops -> inv (fst (run s ops)).
+  Proof.
+    induction ops as [|o r IH]; intros s I W; [exact I|].
+    destruct W as (W1 & W2). destruct (step_inv s o I W1) as (I' & _).
+    cbn [Points.run]. destruct (step s o) as [s1 x] eqn:S. cbn [fst] in *.
+    specialize (IH s1 I' W2). destruct (run s1 r) as [s2 xs]. exact IH.
+  Qed.
+
+  (* two nodes with whatever different pasts (other branches seen and abandoned, other queries asked, restarts) that
+     now hold the same chain give the same statistics for every finished epoch and for every election tick *)
+  Theorem nodes_agree_on_statistics s1 s2 : inv s1 -> inv s2 -> n_chain s1 = n_chain s2 ->
+    (forall t, snd (step s1 (OPeriod t)) = snd (step s2 (OPeriod t))) /\
+    (forall e, is_finished (n_chain s1) edur e = true -> snd (step s1 (OEpoch e)) = snd (step s2 (OEpoch e))).
+  Proof.
+    intros I1 I2 E. split.
+    - intros t. destruct (step_inv s1 (OPeriod t) I1 Logic.I) as (_ & A1). destruct (step_inv s2 (OPeriod t) I2 Logic.I) as (_ & A2).
+      cbn [ans_ok] in A1, A2. rewrite A1, A2, E. reflexivity.
+    - intros e F. destruct (step_inv s1 (OEpoch e) I1 Logic.I) as (_ & A1). destruct (step_inv s2 (OEpoch e) I2 Logic.I) as (_ & A2).
+      cbn [ans_ok] in A1, A2. unfold epoch_answer_ok in A1, A2. rewrite <- E in A2.
+      destruct A1 as [A1|(F1 & _)]; [|rewrite F in F1; discriminate].
+      destruct A2 as [A2|(F2 & _)]; [|rewrite F in F2; discriminate].
+      rewrite A1, A2. reflexivity.
+  Qed.
+
   (* generatePointFromLower never runs below the first lower tick of the epoch (the `continue` without the
      `i == start` test is harmless: a started epoch has a started first lower tick) and never divides by zero *)
   Lemma fresh_period_not_panic c t : fresh_period c t <> PPanic.
@@ -517,4 +542,23 @@ Proof.
   - destruct (get_period _ _ _ _ _ _) as [r pc]. reflexivity.
   - destruct (get_epoch _ _ _ _ _ _ _ _) as [[r pc] ec]. reflexivity.
   - reflexivity.
+Qed.
+
+(* closed form for Props/C11.v: two nodes that reached the same chain by different histories *)
+Theorem reachable_nodes_agree gts dur mult election Hf gen :
+  (forall a b c a' b' c' : Z, Hf a b c = Hf a' b' c' -> a = a' /\ b = b' /\ c = c') ->
+  (forall a b c : Z, Hf a b c <> m_hash gen) -> 0 < dur -> 0 < mult ->
+  forall ops1 ops2,
+  wf_ops gts dur mult election Hf (init gen) ops1 -> wf_ops gts dur mult election Hf (init gen) ops2 ->
+  let s1 := fst (run gts dur mult election (init gen) ops1) in
+  let s2 := fst (run gts dur mult election (init gen) ops2) in
+  n_chain s1 = n_chain s2 ->
+  (forall t, snd (step gts dur mult election s1 (OPeriod t)) = snd (step gts dur mult election s2 (OPeriod t))) /\
+  (forall e, is_finished gts (n_chain s1) (edur dur mult) e = true ->
+             snd (step gts dur mult election s1 (OEpoch e)) = snd (step gts dur mult election s2 (OEpoch e))).
+Proof.
+  intros Hi Hg Hd Hm ops1 ops2 W1 W2 s1 s2 E.
+  apply (nodes_agree_on_statistics gts dur mult election Hf gen Hi Hg Hd Hm s1 s2); [| |exact E].
+  - apply run_inv; try assumption. apply inv_init.
+  - apply run_inv; try assumption. apply inv_init.
 Qed.
